@@ -130,6 +130,8 @@ class Sender(object):
         t = []
         if self.mode in ('mac0', 'bib+bcb'):
             t.append(SecOperation(sec_type='bib', role='source', priv_key_id=b'mac'))
+        if self.mode == 'sign1':
+            t.append(SecOperation(sec_type='bib', role='source', priv_key_id=b'sig'))
         if self.mode == 'mackw':
             t.append(SecOperation(sec_type='bib', role='source', priv_key_id=b'kw', content_alg=HMAC256))
         if self.mode in ('enc0', 'bib+bcb'):
@@ -144,7 +146,8 @@ class Sender(object):
         tt = list(self.tgt_types)
         assoc_lists = [list(x) for x in tt] if tt and isinstance(tt[0], (list, tuple)) else [tt]
         flat = [c for lst in assoc_lists for c in lst]
-        ntgt = sum(1 for b in ctr.bundle.blocks if b.type_code in flat) + 4
+        # exactly one IV per selected block and association: an IV skipped or taken twice shows
+        ntgt = max(sum(1 for b in ctr.bundle.blocks if b.type_code in lst) for lst in assoc_lists)
         self.ctx.sec_assoc[:] = [SecAssociation(src_pat=re.compile('.*'), dst_pat=re.compile('.*'),
                                                 tgt_blk_types=lst, templates=self._templates(ntgt)) for lst in assoc_lists]
         got = []
@@ -1437,6 +1440,13 @@ def campaign(chk, prop, conf):
                 chk.violation('%s:source-security-block-undecodable' % prop, 'security block of the source does not decode: %s' % err, replay)
                 continue
             wire_ok = True
+            try:
+                sc_src = {k: f for k, f in asb.scope()}
+            except Undec:
+                sc_src = {}
+            if not (sc_src.get(0, 0) & 1 and sc_src.get(-1, 0) & 1):
+                chk.violation('%s:source-scope-does-not-bind-primary-and-target' % prop,
+                              'the AAD scope the source declares (%s) does not cover the primary block and the target block metadata' % sc_src, replay)
             if sorted(asb.targets) != sorted(selected) or len(set(asb.targets)) != len(asb.targets):
                 wire_ok = False
                 chk.violation('%s:policy-targets-mismatch' % prop,
@@ -1581,12 +1591,14 @@ def campaign(chk, prop, conf):
     eid_normalisation_monitor(chk, prop, keyhex, conf, reps)
     multi_recipient_monitor(chk, prop, keyhex, conf, reps)
     malformed_structure_monitor(chk, prop, keyhex, conf, reps)
+    additional_headers_monitor(chk, prop, keyhex, conf, reps)
     if conf:
         admin_bcb_monitor(chk, prop, keyhex, reps)
     else:
         short_results_monitor(chk, prop, keyhex, reps)
         attached_payload_monitor(chk, prop, keyhex, reps + 1)
         sign1_monitor(chk, prop, keyhex, reps + 1)
+        sign1_source_monitor(chk, prop, keyhex, reps)
 
     # ---- 3. every single-bit flip through the real receiver
     n_flip = (3, 5) if quick else (40, 60)
@@ -1597,9 +1609,10 @@ def campaign(chk, prop, conf):
     todo = inter[:n_flip[0]] + crafted[:n_flip[1]]
     if not quick:
         rng.shuffle(todo)
-    budget = 110 if quick else 780
+    budget = 70 if quick else 600
+    t_flips = chk.elapsed()
     for (label, accept, data) in todo:
-        left = budget - (chk.elapsed() - t_start)
+        left = budget - (chk.elapsed() - t_flips)
         if left < 5:
             chk.count('flip-bundles-skipped-for-time')
             continue
@@ -1846,7 +1859,8 @@ def _sign1_material():
              .subject_name(x509.Name([x509.NameAttribute(NameOID.COMMON_NAME, subject)])).issuer_name(issuer_name)
              .public_key(key.public_key()).serial_number(x509.random_serial_number())
              .not_valid_before(datetime.datetime(2020, 1, 1)).not_valid_after(datetime.datetime(2040, 1, 1))
-             .add_extension(x509.SubjectKeyIdentifier.from_public_key(key.public_key()), False))
+             .add_extension(x509.SubjectKeyIdentifier.from_public_key(key.public_key()), False)
+             .add_extension(x509.AuthorityKeyIdentifier.from_issuer_public_key(issuer_key.public_key()), False))
         if sans:
             b = b.add_extension(x509.SubjectAlternativeName(sans), False)
         return b.sign(issuer_key, hashes.SHA256())
@@ -1854,6 +1868,7 @@ def _sign1_material():
     can = x509.Name([x509.NameAttribute(NameOID.COMMON_NAME, 'verif ca')])
     eek = ec.generate_private_key(ec.SECP256R1())
     _CERTS['ca'] = mk('verif ca', cak, can, cak, None)
+    _CERTS['mk'] = lambda subject, sans: mk(subject, eek, can, cak, sans)
     _CERTS['key'] = eek
     _CERTS['other_key'] = ec.generate_private_key(ec.SECP256R1())
     for name, sans in (('match', [x509.OtherName(OID_ON_EID, ia5('dtn://node/'))]),
@@ -2213,6 +2228,13 @@ def multi_recipient_monitor(chk, prop, keyhex, conf, reps):
                                           dict(replay, observed=out.summary()))
                 else:
                     _expect_reject(chk, prop, 'no-usable-recipient-delivered', 'recipients [%s]: none is usable by the receiver' % name, out, replay)
+                if has_ours and len(recips) > 1:
+                    # the target altered: a recipient that cannot be used must not turn the failure into a success
+                    v = assemble(ib, alter_btsd(insert_before_payload(blocks, [sec]), 1))
+                    o = Receiver(keys, accept=accept).feed(v)
+                    chk.count('recipients:%s:target-altered' % name)
+                    _expect_reject(chk, prop, 'altered-target-delivered', 'recipients [%s], target altered' % name, o,
+                                   dict(replay, data=v.hex(), original=data.hex()))
 
 
 def malformed_structure_monitor(chk, prop, keyhex, conf, reps):
@@ -2250,6 +2272,123 @@ def malformed_structure_monitor(chk, prop, keyhex, conf, reps):
                 o = Receiver(keys, accept=accept).feed(v)
                 chk.count('malformed-structure:%s' % sig)
                 _expect_reject(chk, prop, '%s-accepted' % sig, what, o, dict(base, data=v.hex(), original=data.hex(), what=what))
+
+
+def additional_headers_monitor(chk, prop, keyhex, conf, reps):
+    """ The key id travels in the Additional Unprotected security parameter (id 4) instead of the COSE header
+    (draft-ietf-bpsec-cose: additional headers are defaults for the messages' top layer): must verify / decrypt. """
+    rng = chk.rng
+    keys = keys_from_hex(keyhex)
+    if not conf:
+        install_mac_kw_shim()
+    sc = [[0, 1], [-1, 1]]
+
+    def strip_kid(c):
+        for rl in c['results']:
+            rid, val = rl[0]
+            msg = cbor2.loads(val)
+            kid = msg[1].pop(4, None)
+            if kid is None:                      # key-wrap layer: the recipient carries the key id
+                kid = msg[-1][0][1].pop(4)
+            rl[0] = (rid, cbor2.dumps(msg))
+        c['params'].append((4, cbor2.dumps({4: kid})))
+    for rep in range(reps):
+        ib, payload = plain_bundle(rng, chk.tier, extra=rep % 2, payload=b'key id in the additional headers')
+        n1 = max(b['num'] for b in ib.blocks) + 1
+        cek = bytes(rng.getrandbits(8) for _ in range(32))
+        iv = bytes(rng.getrandbits(8) for _ in range(12))
+        if conf:
+            variants = [('enc0', craft_bcb(chk, ib, bytes.fromhex(keyhex['enc']), [1], n1, [iv], scope=sc)),
+                        ('enc+kw', craft_bcb_kw(chk, ib, [(b'kw', bytes.fromhex(keyhex['kw']))], cek, [1], n1, [iv], sc))]
+        else:
+            variants = [('mac0', (craft_bib(chk, ib, bytes.fromhex(keyhex['mac']), [1], n1, scope=sc), ib.blocks)),
+                        ('mac+kw', (craft_bib_mackw(chk, ib, bytes.fromhex(keyhex['kw']), cek, [1], n1, sc), ib.blocks))]
+        for name, (sec, blocks) in variants:
+            sec2 = rebuild_asb(sec, strip_kid)
+            for accept in (True, False):
+                base = dict(keys=keyhex, mode='additional-headers:' + name, accept=accept)
+                data = assemble(ib, insert_before_payload(blocks, [sec2]))
+                out = Receiver(keys, accept=accept).feed(data)
+                chk.count('additional-headers:%s' % name)
+                if not out.delivered:
+                    chk.violation('%s:key-id-in-additional-headers-rejected' % prop,
+                                  '%s: the key id is given in the Additional Unprotected parameter; not verified' % name,
+                                  dict(base, data=data.hex(), expected='must-pass', observed=out.summary()))
+                    continue
+                chk.cov['traces_validated_against_impl'] += 1
+                v = assemble(ib, alter_btsd(insert_before_payload(blocks, [sec2]), 1))
+                _expect_reject(chk, prop, 'altered-target-delivered', '%s with key id in the additional headers, target altered' % name,
+                               Receiver(keys, accept=accept).feed(v), dict(base, data=v.hex(), original=data.hex()))
+
+
+def sign1_source_monitor(chk, prop, keyhex, reps):
+    """ The agent as a signing source: an EC key in the asymmetric key store, its certificate chain configured, the
+    chain (x5chain) or only its thumbprint (x5t) sent in the Additional Unprotected parameter. The BIB it produces must
+    verify at a receiver trusting the CA, and an altered target must be rejected. """
+    from cryptography import x509
+    from cryptography.hazmat.primitives import serialization
+    from pycose.keys.keyops import SignOp
+    mat = _sign1_material()
+    rng = chk.rng
+    keys = keys_from_hex(keyhex)
+    cert = x509.load_der_x509_certificate(mat['match'])
+    ca_der = mat['ca'].public_bytes(serialization.Encoding.DER)
+    for rep in range(reps):
+        # (thumbprint-only mode, integrity_include_chain=False, cannot run here: upstream pycose's X5T.encode() returns the
+        #  algorithm class, which the plain cbor2.dumps of apply_bib cannot encode; the step raises and no BIB is added)
+        for include_chain in (True,):
+            snd = Sender(keys, 'sign1', rng=rng)
+            snd.config.integrity_include_chain = include_chain
+            ck = snd.ctx.extract_cose_key(mat['key'])
+            ck.kid = b'sig'
+            ck.key_ops = [SignOp]
+            snd.ctx.asym_key_store[b'sig'] = ck
+            snd.ctx._cert_chain = [cert]
+            snd.tgt_types = [1, 7] if rep % 2 else [1]
+            ctr, payload = gen_container(rng, chk.tier, kinds=[0] if rep % 2 else None, payload=b'signed at the source')
+            CAPTURE.active = True
+            data = snd.send(ctr)
+            a1, s1 = CAPTURE.take()
+            CAPTURE.active = False
+            how = 'x5chain' if include_chain else 'x5t'
+            base = dict(keys=keyhex, mode='sign1-source:' + how, data=data.hex() if data else None)
+            chk.count('sign1-source:%s' % how)
+            chk.case({'s1': base['data']}, nontrivial=True)
+            try:
+                ib = IBundle(data)
+                secs = [b for b in ib.blocks if b['type'] == 11]
+                asb = IAsb(bytes.fromhex(secs[0]['btsd']))
+                ok = len(secs) == 1 and all(len(rl) == 1 and rl[0][0] == 18 for rl in asb.results) and asb.targets == snd.last_selected
+            except Exception:
+                ok = False
+            if not ok:
+                chk.violation('%s:source-did-not-apply-security-block' % prop,
+                              'signing source (%s): no COSE_Sign1 BIB over the selected blocks on the wire' % how, base)
+                continue
+            check_captures(chk, a1, s1, 'sign1 source')
+            for accept in (False, True):
+                rcv = Receiver(keys, accept=accept)
+                rcv.ctx._ca_certs = [mat['ca']]
+                if not include_chain:
+                    # thumbprint only: the receiver knows the certificates from configuration
+                    rcv.ctx.cert_store.add_untrusted_cert(mat['match'])
+                    rcv.ctx.cert_store.add_untrusted_cert(ca_der)
+                out = rcv.feed(data)
+                if _expect_deliver(chk, prop, 'BIB signed by the agent (%s)' % how, out, dict(base, accept=accept)):
+                    chk.cov['traces_validated_against_impl'] += 1
+                    v = assemble(ib, alter_btsd(ib.blocks, 1)) if assemble(ib, ib.blocks) == data else None
+                    if v is not None:
+                        _expect_reject(chk, prop, 'altered-target-delivered', 'BIB signed by the agent (%s), target altered' % how,
+                                       _rcv_like(rcv, keys, accept, mat, include_chain, ca_der).feed(v), dict(base, accept=accept, data=v.hex(), original=data.hex()))
+
+
+def _rcv_like(_r, keys, accept, mat, include_chain, ca_der):
+    rcv = Receiver(keys, accept=accept)
+    rcv.ctx._ca_certs = [mat['ca']]
+    if not include_chain:
+        rcv.ctx.cert_store.add_untrusted_cert(mat['match'])
+        rcv.ctx.cert_store.add_untrusted_cert(ca_der)
+    return rcv
 
 
 def json_scope(scope):
